@@ -49,14 +49,17 @@ pub struct GenCfg {
     /// limits absent or beyond 100. At most three departures and no maintenance slots then, so
     /// that the search stays fast.
     pub giant: bool,
+    /// one case in four is a "rush hour": all departures start within two hours, so that few
+    /// trips can follow each other and the fleet is as wide as the demand (many vehicles at once)
+    pub rush: bool,
 }
 
 impl GenCfg {
     pub const fn quick() -> GenCfg {
-        GenCfg { max_departures: 8, max_slots: 3, force_slots: false, heavy_demand: false, max_need: 6, max_total_need: 22, single_type: false, small_grid: false, cycle_rich: false, max_depots: 5, giant: false }
+        GenCfg { max_departures: 8, max_slots: 3, force_slots: false, heavy_demand: false, max_need: 6, max_total_need: 22, single_type: false, small_grid: false, cycle_rich: false, max_depots: 5, giant: false, rush: false }
     }
     pub const fn thorough() -> GenCfg {
-        GenCfg { max_departures: 16, max_slots: 4, force_slots: false, heavy_demand: false, max_need: 6, max_total_need: 36, single_type: false, small_grid: false, cycle_rich: false, max_depots: 12, giant: false }
+        GenCfg { max_departures: 16, max_slots: 4, force_slots: false, heavy_demand: false, max_need: 6, max_total_need: 36, single_type: false, small_grid: false, cycle_rich: false, max_depots: 12, giant: false, rush: false }
     }
 }
 
@@ -231,6 +234,7 @@ pub fn decode_inst(t: &Tape, cfg: &GenCfg, prefix: &str) -> Inst {
     let jitter_mode = pick_w(f(p, 17), &[4, 1]);
     let short_dates = pick_w(f(p, 13), &[3, 1]) == 1;
     let fmt = |t: i64| if short_dates { fmt_time_short(t) } else { fmt_time(t) };
+    let rush = cfg.rush && pick_w(f(p, 22), &[3, 1]) == 1;
     let mut departures = Vec::new();
     let mut total_need = 0u64;
     for i in 0..ndeps {
@@ -239,7 +243,7 @@ pub fn decode_inst(t: &Tape, cfg: &GenCfg, prefix: &str) -> Inst {
         let route = &routes[ri];
         let vt = types.iter().find(|x| x.id == route.vtype).unwrap();
         // most departures inside one day so that chains and ties are frequent
-        let tick = if cfg.small_grid { pick(f(r, 1), 6) as i64 } else { pick(f(r, 1), 108) as i64 + if pick_w(f(r, 2), &[7, 1]) == 1 { 144 } else { 0 } };
+        let tick = if cfg.small_grid { pick(f(r, 1), 6) as i64 } else if rush { pick(f(r, 1), 12) as i64 } else { pick(f(r, 1), 108) as i64 + if pick_w(f(r, 2), &[7, 1]) == 1 { 144 } else { 0 } };
         let mut time = base + tick * TICK + if jitter_mode == 1 && !cfg.small_grid { choose(f(r, 2), &[0i64, 1, 59]) } else { 0 };
         // "twin": a second departure at exactly the time of the previous one (identical start and
         // end times of different trips; only the node index orders them)
